@@ -35,6 +35,10 @@ def run(c):
                  desc="extending: the %s exit discards %s" % (name, tree))
         c.never("ext-%s-no-commit" % name, W, arm, COMMIT, desc="extending: the %s exit never commits the child batch" % name)
         c.never("ext-%s-no-sync" % name, W, arm, SYNC, desc="extending: the %s exit never syncs a backend" % name)
+    # in-memory state of the TxHashSet (MMR sizes, the unspent-output bitmap accumulator) is replaced on the commit exit only: a failed or
+    # rolled-back (losing fork) extension leaves what later readers and the next extension start from exactly as it was
+    for field in ("bitmap_accumulator", "size"):
+        _no_assign(c, "ext-err-rollback-keeps-" + field, W, err_arm + rb_arm, field)
     c.r1("ext-commit", W, COMMIT, start=ok_arm, sink="ok", via=2, desc="extending: the commit exit commits the child batch")
     for tree in ("output_pmmr_h", "rproof_pmmr_h", "kernel_pmmr_h"):
         c.r1("ext-commit-syncs-" + tree, W, SYNC, require_where=r"^arg1\.%s\.backend" % tree, start=ok_arm, sink="ok", via=2,
@@ -128,3 +132,31 @@ def _not_variable(c, fn):
                     if v != "1":
                         out.append((bi, t))
     return out
+
+
+def _no_assign(c, rid, fn, starts, field):
+    """From the given blocks no assignment to `.field` of the shared TxHashSet is reachable."""
+    from cfg import reachable_set
+    from facts import fn_loc
+    key = c.getfn(fn)
+    d = "%s: the error/rollback exits do not assign .%s (the in-memory state is replaced on the commit exit only)" % (fn.split("::")[-1], field)
+    if key is None or not starts:
+        return c.lost(rid, "R1", fn, d, "function or start blocks not found")
+    f = c.F.fns[key]
+    # positive control: the commit exit does assign it
+    n_all = 0
+    for b in f["blocks"]:
+        for st in b["st"]:
+            if st["k"] == "assign" and st["dst"]["p"]:
+                last = [p for p in st["dst"]["p"] if p != "*"]
+                if last and isinstance(last[-1], dict) and last[-1].get("f") == field:
+                    n_all += 1
+    if not n_all:
+        return c.lost(rid, "R1", key, d, "no assignment to .%s anywhere in %s (field renamed?)" % (field, key))
+    for bi in reachable_set(f, starts):
+        for st in f["blocks"][bi]["st"]:
+            if st["k"] == "assign" and st["dst"]["p"]:
+                last = [p for p in st["dst"]["p"] if p != "*"]
+                if last and isinstance(last[-1], dict) and last[-1].get("f") == field:
+                    return c.record(rid, "R1", key, d, "violation", ["%s:%s" % (f["span"]["file"], st.get("line"))], ["assignment to .%s reachable from an error/rollback exit" % field], key_detail="assign:" + field)
+    return c.record(rid, "R1", key, d, "hold", [fn_loc(f)])
